@@ -941,6 +941,7 @@ static int count_postprobs_in_msa(ESL_MSA *msa, ESL_ALPHABET *abc, int *countme,
 	  ESL_FAIL(eslEINVAL, errbuf, "some but not all sequences have PP annotation in msa, seq %d does not.\n", (i+1));
 	}
 	ppidx = get_pp_idx(abc, msa->pp[i][apos]);
+	if(ppidx == -1) ESL_FAIL(eslEFORMAT, errbuf, "bad #=GR PP char: %c for seq: %d aln column: %d", msa->pp[i][apos], (i+1), (apos+1));
 	if(ppidx == 11) { /* special, gap idx */
 	  /* make sure the corresponding residue is also a gap */
 	  if(! esl_abc_CIsGap(abc, msa->aseq[i][apos])) ESL_FAIL(eslEINVAL, errbuf, "post prob annotation for seq: %d aln column: %d is a gap (%c), but seq res is not: (%c)", i, apos, msa->pp[i][apos], msa->aseq[i][apos]);
